@@ -41,7 +41,10 @@ func (kgraph *KVGraph) DeleteGraph(graph string) error {
 	// edges, adjacency entries and vertices are only partly gone. Leftovers are
 	// removed below, or by the next AddGraph of that name.
 	graphKey := GraphKey(graph)
-	kgraph.kv.Delete(graphKey)
+	if err := kgraph.kv.Delete(graphKey); err != nil {
+		// the graph is still there: the request must not be acknowledged
+		return err
+	}
 
 	kgraph.purgeGraph(graph)
 
